@@ -19,7 +19,7 @@ def shapes(tier):
     return [(24, 24), (25, 25), (24, 30)] + ([(31, 26), (32, 32)] if tier != 'quick' else [])
 
 
-def plane(shape, seg, seed, pixelscale=DX):
+def plane(shape, seg, seed, pixelscale=DX, amp_kind='real'):
     import lentil
     rr, cc = np.meshgrid(np.arange(shape[0]) - shape[0] // 2, np.arange(shape[1]) - shape[1] // 2, indexing='ij')
     sig = min(shape) / 8.0
@@ -27,8 +27,12 @@ def plane(shape, seg, seed, pixelscale=DX):
     amp = np.exp(-(rr ** 2 + (cc * k) ** 2) / (2 * sig ** 2))
     x, y = rr / (min(shape) / 2), cc / (min(shape) / 2)
     opd = (0.08 * x + 0.05 * y + 0.06 * (x * x - y * y) + 0.04 * x * y) * WL * k
+    if amp_kind == 'complex':                 # a complex transmission whose phase is not symmetric under transposition
+        amp = amp * np.exp(1j * (0.9 * x - 0.5 * y + 0.7 * x * y * y))
     if seg == 'mono':
         mask = np.ones(shape)
+    elif seg == 'intmask':
+        mask = np.ones(shape, dtype=int)
     else:
         mask = np.zeros((2,) + shape)
         mask[0][:, :shape[1] // 2] = 1
@@ -66,7 +70,7 @@ def second_moment(amp, ps):
 
 def chk(case, acc, seed):
     shape, seg, s, via = tuple(case['shape']), case['seg'], case['scale'], case['via']
-    p = plane(shape, seg, seed)
+    p = plane(shape, seg, seed, amp_kind=case.get('amp', 'real'))
     if case.get('used_first'):
         psf(p)                      # the plane has already been used in a propagation before it is resampled
     d0 = pdig(p)
@@ -112,6 +116,19 @@ def chk(case, acc, seed):
             q = p.rescale(s) if via == 'rescale' else p.resample(DX / s)      # a fresh result for the checks below
     except Exception as e:
         acc.violation(f'{via}:fit-on-result-raises:{type(e).__name__}', case, repr(e))
+    # the result is a plane like any other: it can be rescaled / resampled again
+    for t in (0.5, 1, 2):
+        try:
+            r = q.rescale(t) if via == 'rescale' else q.resample(DX / s / t)
+        except Exception as e:
+            acc.violation(f'{via}:again:raises:{type(e).__name__}', dict(case, then=t), f'rescaling the returned plane again by {t}: {e!r}')
+            break
+        want2 = (math.ceil(want_shape[0] * t), math.ceil(want_shape[1] * t))
+        if tuple(r.shape) != want2 or r.pixelscale is None or not np.allclose(r.pixelscale, (DX / s / t,) * 2, rtol=1e-14, atol=0):
+            acc.violation(f'{via}:again:bookkeeping', dict(case, then=t), f'second step by {t}: shape {r.shape} (want {want2}), pixel scale {r.pixelscale}')
+        if t == 1 and (rm.maxerr(r.amplitude, q.amplitude) > 1e-12 or rm.maxerr(np.asarray(r.mask, float), np.asarray(q.mask, float)) > 0):
+            acc.violation(f'{via}:again:identity', dict(case, then=t), 's = 1 applied to a rescaled plane is not the identity')
+        acc.cls('again')
     if s == 1:
         if rm.maxerr(q.amplitude, p.amplitude) > 1e-12 or rm.maxerr(q.opd, p.opd) > 1e-12 * WL or rm.maxerr(np.asarray(q.mask, float), np.asarray(p.mask, float)) > 0:
             acc.violation(f'{via}:identity', case, f's = 1 is not the identity (amp {rm.maxerr(q.amplitude, p.amplitude):.2e})')
@@ -141,6 +158,7 @@ def chk(case, acc, seed):
             acc.violation(f'{via}:array-extent:{kind}', case, f'array extent {ext1} vs {ext0}')
     acc.cls(f'{via}:{kind}')
     acc.cls('seg:' + seg)
+    acc.cls('amp:' + case.get('amp', 'real'))
     acc.case(case, nontrivial=s != 1, outcome=f'{via}-{kind}-{seg}')
 
 
@@ -170,6 +188,31 @@ def chk_refuse(case, acc, seed):
     q = p.rescale(2)
     if q.pixelscale is not None:
         acc.violation('rescale:pixelscale-invented', case, f'{q.pixelscale}')
+    # a rescale that cannot be done (a one-sample segment that does not survive down-sampling) leaves the plane as it was
+    n = 20
+    seg = np.zeros((3, n, n))
+    seg[0, 4:16, 2:9] = 1
+    seg[1, 4:16, 11:18] = 1
+    seg[2, 17, 9] = 1
+    rr = np.arange(n)[:, None] - n / 2.0
+    p = lentil.Pupil(amplitude=seg.sum(axis=0), opd=30e-9 * seg.sum(axis=0) * rr / 8, mask=seg, pixelscale=DX, focal_length=Z)
+    d0 = pdig(p)
+    for sc in (0.5, 0.25, 0.75):
+        try:
+            p.rescale(sc)
+            acc.cls('tiny-segment:done')
+        except Exception:
+            acc.cls('tiny-segment:refused')
+        if p.amplitude is None or p.opd is None or pdig(p) != d0:
+            acc.violation('rescale:refusal-mutates', dict(case, scale=sc), f'after rescale({sc}) of a plane with a one-sample segment the original plane changed')
+            break
+        try:
+            r = p.rescale(2)
+            if tuple(r.shape) != (2 * n, 2 * n):
+                acc.violation('rescale:after-refusal', dict(case, scale=sc), f'{r.shape}')
+        except Exception as e:
+            acc.violation(f'rescale:after-refusal:raises:{type(e).__name__}', dict(case, scale=sc), repr(e))
+            break
     acc.cls('refusals')
     acc.case(case, outcome='refuse')
 
@@ -200,6 +243,10 @@ def t_shape(arg, acc):
                 acc.transitions += 1
                 chk({'kind': 'resample', 'shape': arg['shape'], 'seg': seg, 'scale': s, 'via': via}, acc, arg['seed'])
                 chk({'kind': 'resample', 'shape': arg['shape'], 'seg': seg, 'scale': s, 'via': via, 'used_first': True}, acc, arg['seed'])
+    for s in SCALES:
+        for via in ('rescale', 'resample'):
+            chk({'kind': 'resample', 'shape': arg['shape'], 'seg': 'intmask', 'scale': s, 'via': via}, acc, arg['seed'])
+            chk({'kind': 'resample', 'shape': arg['shape'], 'seg': 'mono', 'scale': s, 'via': via, 'amp': 'complex'}, acc, arg['seed'])
     chk_refuse({'kind': 'refuse'}, acc, arg['seed'])
     sh = tuple(arg['shape'])
     for other in ((sh[0] + 1, sh[1] + 1), (sh[0] - 1, sh[1] - 1), (sh[1], sh[0]), (sh[0] + 1, sh[1])):
@@ -221,7 +268,7 @@ def run(tier, seed, acc, procs=None):
         'bounds': {'shapes': shapes(tier), 'scales': SCALES},
         'assumptions': ['"interpolation accuracy" is a bounded numerical statement: tolerances are 10x above the spline noise measured on '
                         'this alphabet and far below the factor s^2 (power) or s (pixel scale) that a convention error produces'],
-        'require': {'rescale:down': 8, 'rescale:up': 30, 'resample:identity': 4, 'seg:seg2': 40, 'refusals': 1, 'history': 30},
+        'require': {'rescale:down': 8, 'rescale:up': 30, 'resample:identity': 4, 'seg:seg2': 40, 'refusals': 1, 'history': 30, 'again': 200, 'seg:intmask': 40, 'amp:complex': 40},
     }
 
 
